@@ -1,10 +1,14 @@
 #!/bin/bash
 # seed_eval.sh <seed-name> <check-id>...: apply the seeded change to /repo, run the checks, undo it.
+# Evidence files are saved and restored: committed evidence must come from the unchanged tree.
 name="$1"; shift
 cd /verif
+bak=$(mktemp -d)
+cp -r evidence "$bak/"
 git -C /repo apply /verif/seeded/$name/patch.diff || { echo "$name: patch does not apply"; exit 2; }
 for c in "$@"; do
   out=$(./check $c 2>&1); rc=$?
   echo "$name vs $c: rc=$rc $(echo "$out" | grep -E 'VIOLATION|agree|KNOWN' | tail -1)"
 done
 git -C /repo checkout -- .
+rm -rf evidence && mv "$bak/evidence" evidence && rmdir "$bak"
